@@ -2,6 +2,8 @@ package main
 
 import (
 	"bytes"
+	"fmt"
+	"math/rand"
 	"regexp"
 	"runtime"
 	"sort"
@@ -40,8 +42,10 @@ type Stim struct {
 	Tmo  int    `json:"tmo,omitempty"` // index into tmoTicks
 	OnF  bool   `json:"onf,omitempty"`
 	OnT  bool   `json:"ont,omitempty"`
-	CbF  int    `json:"cbf,omitempty"` // what OnFiltered does besides being recorded: 0 nothing, 1 closes its own subscriber
-	CbT  int    `json:"cbt,omitempty"` // what OnTimeout does: 0 nothing, 1 closes its own subscriber, 2 closes the publication
+	Ord  int    `json:"ord,omitempty"`  // order in which the options are passed to Subscribe: 0 = filter, timeout, OnFiltered, OnTimeout; otherwise the seed of a permutation
+	Slow int    `json:"slow,omitempty"` // the filter takes this many milliseconds
+	CbF  int    `json:"cbf,omitempty"`  // what OnFiltered does besides being recorded: 0 nothing, 1 closes its own subscriber
+	CbT  int    `json:"cbt,omitempty"`  // what OnTimeout does: 0 nothing, 1 closes its own subscriber, 2 closes the publication
 	M    int    `json:"m,omitempty"`
 	S    int    `json:"s,omitempty"`
 }
@@ -51,6 +55,51 @@ type Script struct {
 	Family string   `json:"family"`
 	Tags   []string `json:"tags"`
 	Stims  []Stim   `json:"stims"`
+}
+
+// optOrder lists the kinds of options of a Subscribe stimulus ("F" filter, "T" timeout, "OF" OnFiltered,
+// "OT" OnTimeout) in the order in which they are passed.
+func optOrder(st Stim) []string {
+	var ks []string
+	if st.FK != 0 {
+		ks = append(ks, "F")
+	}
+	ks = append(ks, "T")
+	if st.OnF {
+		ks = append(ks, "OF")
+	}
+	if st.OnT {
+		ks = append(ks, "OT")
+	}
+	if st.Ord != 0 {
+		rand.New(rand.NewSource(int64(st.Ord))).Shuffle(len(ks), func(i, j int) { ks[i], ks[j] = ks[j], ks[i] })
+	}
+	return ks
+}
+
+// optsCoq renders the option list of a Subscribe stimulus for Run/CorrPub.v.
+func optsCoq(st Stim) string {
+	var p []string
+	for _, k := range optOrder(st) {
+		switch k {
+		case "F":
+			p = append(p, "XoFilter "+fcodeCoq(st))
+		case "T":
+			p = append(p, fmt.Sprintf("XoTimeout %s", cwZ(tmoTicks[st.Tmo])))
+		case "OF":
+			p = append(p, "XoOnFiltered")
+		case "OT":
+			p = append(p, "XoOnTimeout")
+		}
+	}
+	return "[" + strings.Join(p, "; ") + "]"
+}
+
+func cwZ(i int) string {
+	if i < 0 {
+		return fmt.Sprintf("(%d)", i)
+	}
+	return fmt.Sprintf("%d", i)
 }
 
 func accepts(st Stim, m int) bool {
@@ -293,14 +342,18 @@ func (r *runner) doStim(st Stim) (stimResult, bool) {
 		case opSub:
 			sid := len(r.subs)
 			cfg := st
-			var opts []publisher.SubscriberOption[int]
+			byKind := map[string]publisher.SubscriberOption[int]{}
 			if st.FK != 0 {
-				opts = append(opts, publisher.WithFilter(func(m int) bool {
+				byKind["F"] = publisher.WithFilter(func(m int) bool {
+					if cfg.Slow > 0 {
+						time.Sleep(time.Duration(cfg.Slow) * time.Millisecond)
+					}
+					// stamped when the filter returns: the delivery of this pair cannot start earlier
 					r.log(evFilter, sid, m)
 					return accepts(cfg, m)
-				}))
+				})
 			}
-			opts = append(opts, publisher.WithTimeout[int](time.Duration(tmoTicks[st.Tmo])*tickDur))
+			byKind["T"] = publisher.WithTimeout[int](time.Duration(tmoTicks[st.Tmo]) * tickDur)
 			h := &subH{cfg: st}
 			// a callback may close its own subscriber or the whole publication (from inside the callback)
 			act := func(kind, m int) {
@@ -323,10 +376,14 @@ func (r *runner) doStim(st Stim) (stimResult, bool) {
 				r.logAux(evCloseEnd, sid, m, kind)
 			}
 			if st.OnF {
-				opts = append(opts, publisher.OnFiltered(func(m int) { r.log(evOnFiltered, sid, m); act(cfg.CbF, m) }))
+				byKind["OF"] = publisher.OnFiltered(func(m int) { r.log(evOnFiltered, sid, m); act(cfg.CbF, m) })
 			}
 			if st.OnT {
-				opts = append(opts, publisher.OnTimeout(func(m int) { r.log(evOnTimeout, sid, m); act(cfg.CbT, m) }))
+				byKind["OT"] = publisher.OnTimeout(func(m int) { r.log(evOnTimeout, sid, m); act(cfg.CbT, m) })
+			}
+			var opts []publisher.SubscriberOption[int]
+			for _, k := range optOrder(st) {
+				opts = append(opts, byKind[k])
 			}
 			h.sub = r.pub.Subscribe(st.Cap, opts...)
 			r.mu.Lock()
